@@ -147,6 +147,12 @@ pub enum E {
     Host(&'static str, Box<E>),
     /// `list.get(i)`: `Some(element copy)` / `None`
     Get(Box<E>, u64),
+    /// `list.contains(x)` (structural equality of elements)
+    Contains(Box<E>, Box<E>),
+    /// `list.index(x)`: `Some(first position)` / `None`
+    Index(Box<E>, Box<E>),
+    /// `a.concat(b)`: a NEW list holding copies of the elements of both
+    Concat(Box<E>, Box<E>),
     /// `try_k(e)`: `fn try_k(x: Option[T]) -> Option[U] { let y = x?; Some(y.<path>) }`
     Try(usize, Vec<usize>, Box<E>),
     Eq(bool, Box<E>, Box<E>),
@@ -660,6 +666,31 @@ impl<'a> Gen<'a> {
             }
             let (l, et) = self.p.pick(&ls).clone();
             if self.p.chance(1, 4) {
+                // structural equality of elements inside list methods, and concat
+                let lt = T::List(Box::new(et.clone()));
+                match self.p.below(3) {
+                    0 => {
+                        let x = self.build(&et, 2);
+                        out.push(S::Emit(E::Contains(Box::new(l), Box::new(x)), T::Bool));
+                        self.kinds.insert("list-contains");
+                    }
+                    1 => {
+                        let x = self.build(&et, 2);
+                        out.push(S::Emit(
+                            E::Index(Box::new(l), Box::new(x)),
+                            T::Opt(Box::new(T::Int(false, 64))),
+                        ));
+                        self.kinds.insert("list-index");
+                    }
+                    _ => {
+                        let other = self.build(&lt, 2);
+                        let ann = lt.src(&self.env);
+                        let w = self.new_var(lt, None);
+                        out.push(S::Let(w, Some(ann), E::Concat(Box::new(l), Box::new(other))));
+                        self.kinds.insert("list-concat");
+                    }
+                }
+            } else if self.p.chance(1, 3) {
                 // read an element back out: a copy wrapped in an Option
                 let ot = T::Opt(Box::new(et.clone()));
                 let ann = ot.src(&self.env);
@@ -884,6 +915,9 @@ impl Src<'_> {
                 format!("{{ let {0} = {1}; {0}{pth} = {2}; {0} }}", vname(*tv), self.e(x, None), self.e(f, None))
             }
             E::Get(l, i) => format!("{}.get({i})", self.e(l, None)),
+            E::Contains(l, x) => format!("{}.contains({})", self.e(l, None), self.e(x, None)),
+            E::Index(l, x) => format!("{}.index({})", self.e(l, None), self.e(x, None)),
+            E::Concat(a, b) => format!("{}.concat({})", self.e(a, None), self.e(b, None)),
             E::Try(k, _, x) => format!("try_{k}({})", self.e(x, None)),
             E::Eq(neg, a, b) => format!("({} {} {})", self.e(a, None), if *neg { "!=" } else { "==" }, self.e(b, None)),
             E::Len(x) => format!("{}.len()", self.e(x, None)),
@@ -1086,6 +1120,21 @@ fn spec_e(e: &E, args: &Args, out: &mut Vec<String>) {
         E::Get(l, i) => {
             out.extend(["G".into(), i.to_string()]);
             spec_e(l, args, out);
+        }
+        E::Contains(l, x) => {
+            out.push("C".into());
+            spec_e(l, args, out);
+            spec_e(x, args, out);
+        }
+        E::Index(l, x) => {
+            out.push("X".into());
+            spec_e(l, args, out);
+            spec_e(x, args, out);
+        }
+        E::Concat(a, b) => {
+            out.push("K".into());
+            spec_e(a, args, out);
+            spec_e(b, args, out);
         }
         E::Try(_, p, x) => {
             out.extend(["T".into(), p.len().to_string()]);
